@@ -405,7 +405,7 @@ def run_drift(case):
 # --------------------------------------------------------- ControlStream
 def gen_control(run):
   L = run.pick(8, 10)
-  for route in ("direct", "expr", "expr-rev", "iter-once"):
+  for route in ("direct", "expr", "expr-rev", "iter-once", "mixer", "mixer-late"):
     for n in range(0, L + 1):
       if n < L and n > 4:
         continue
@@ -427,6 +427,17 @@ def run_control(case):
   elif route == "expr-rev":
     src = 10 - cs
     f = lambda v: 10 - v
+  elif route in ("mixer", "mixer-late"):
+    # the ControlStream played as a mixer event: the item due at sample n is read when sample n is
+    # asked for, so the mixer shows the value most recently assigned (no read ahead)
+    src = Streamix(zero=100)
+    if route == "mixer":
+      src.add(0, cs)
+      f = lambda v: 100 + v
+    else:
+      src.add(0, [1, 1])
+      src.add(2, cs * 2)
+      f = None
   else:
     src = iter(cs)
     f = lambda v: v
@@ -437,6 +448,8 @@ def run_control(case):
       got = src.take() if route != "iter-once" else next(src)
       if route == "expr":
         exp = (1, 3)[k % 2] + cur
+      elif route == "mixer-late":
+        exp = 101 if k < 2 else 100 + 2 * cur
       else:
         exp = f(cur)
       k += 1
